@@ -380,6 +380,15 @@ def check_conventions(ctx):
                     imp[st.test.comparators[0].value] = (ast.unparse(r.value.func), lin_of(r.value.args[0], "tk_gate.op.params[0]"))
                 except Unsupported as e:
                     raise AnalysisError("box_from_tk: %s" % e)
+    # every case of the reader is selected by the NAME of the tket operation
+    nmv = next((ast.unparse(s_.targets[0]) for s_ in bft.body if isinstance(s_, ast.Assign) and ast.unparse(s_.value).endswith(".op.type.name")), None)
+    ctx.need(nmv is not None, "box_from_tk does not read the name of the operation")
+    gate_arg = bft.args.args[0].arg
+    shape.match_stmts(ctx, "R13.1", TK + ".from_tk.box_from_tk:name", [s_ for s_ in bft.body if isinstance(s_, ast.Assign)], ["name = tk_gate.op.type.name"], {nmv: "name", gate_arg: "tk_gate"}, mod=TK, node=bft, sig="import-name", exact=True)
+    tests_ = [s_.test for s_ in ast.walk(bft) if isinstance(s_, ast.If)]
+    badt = [ast.unparse(t_) for t_ in tests_ if not (isinstance(t_, ast.Compare) and len(t_.ops) == 1 and isinstance(t_.ops[0], ast.Eq) and ast.unparse(t_.left) == nmv)]
+    ctx.ob("R13.1", TK + ".from_tk.box_from_tk:selected-by-name", not badt, found=badt or "%d cases, each `%s == ...`" % (len(tests_), nmv), required="every case compares the name of the operation (a string) with a name", mod=TK, node=bft,
+           sig="import-by-name")
     x = Lin.var("x")
     for nm in ("Rx", "Rz", "CRz"):
         ok_e = export.get(nm) == x * 2
@@ -527,6 +536,10 @@ def check_batches(ctx):
     rb = [r_ for r_ in cg.body if isinstance(r_, ast.Return)]
     shape.match(ctx, "R13.4", "discopy.quantum.circuit.Circuit.get_counts:backend-result", rb[-1].value if rb else None, "counts if len(counts) > 1 else counts[0]", {}, mod="discopy.quantum.circuit", node=cg,
                 sig="get-counts-backend-result", required="the list of tables for a batch, the table itself for one circuit")
+    ce_ = m.func("discopy.quantum.circuit.Circuit.eval")
+    re_ = [r_ for r_ in ce_.body if isinstance(r_, ast.Return)]
+    shape.match(ctx, "R13.4", "discopy.quantum.circuit.Circuit.eval:backend-result", re_[-1].value if re_ else None, "results if len(results) > 1 else results[0]", {}, mod="discopy.quantum.circuit", node=ce_,
+                sig="eval-backend-result", required="the list of results for a batch, the result itself for one circuit")
     # the eval side: results[i] built from counts[i] and circuits[i].post_processing
     ev = m.func("discopy.quantum.circuit.Circuit.eval")
     ctx.analysed("discopy.quantum.circuit.Circuit.eval")
